@@ -3,7 +3,7 @@
 //! wrappers and the DictZip dictionary loaders.
 use std::cell::RefCell;
 
-use super::{bytes_via_file, with_file};
+use super::{bytes_via_file, limit_address_space, with_file};
 use crate::{payloads, seed, P};
 use zverif::mutate::Seed;
 use zverif::Tier;
@@ -55,7 +55,12 @@ fn factory_seeds<const A: u8>(t: Tier) -> Vec<Seed> {
     let mut v = Vec::new();
     for (label, p) in payloads() {
         // the rANS container starts with a 1 KiB frequency table; the ramp adds nothing there
-        if t == Tier::Quick && matches!(label, "ramp" | "text128") {
+        if t == Tier::Quick && matches!(label, "ramp" | "text128" | "zeros") {
+            continue;
+        }
+        // Dictionary: "abab" is the payload whose encoding contains an LZ match token; every mutant of its
+        // length field is a decompression bomb (covered by `DictionaryCompressor::decompress`): thorough only
+        if t == Tier::Quick && A == 5 && label == "abab" {
             continue;
         }
         if let Some(Ok(b)) = with_compressor(A, |c| c.compress(&p)) {
@@ -79,6 +84,7 @@ fn factory_seeds<const A: u8>(t: Tier) -> Vec<Seed> {
 }
 
 fn factory_parse<const A: u8>(b: &[u8], _n: usize) -> bool {
+    limit_address_space();
     with_compressor(A, |c| c.decompress(b).is_ok()).unwrap_or(false)
 }
 
@@ -119,10 +125,16 @@ fn adaptive_parse<const A: u8>(b: &[u8], _n: usize) -> bool {
 // ---------------------------------------------------------------------------------------------
 // SIMD LZ77 (inherent decompress: PA-Zip match stream -> reconstruct)
 
-fn lz77_seeds(_t: Tier) -> Vec<Seed> {
+/// A corrupted PA-Zip bit stream re-synchronises on random tokens, one in ~30 of which is a Far3Long with
+/// a 30-bit length: a large share of all mutants ends in an allocation failure.  Quick therefore uses two
+/// short streams (the engine gives up on a subject after 200 dead children per shard).
+fn lz77_seeds(t: Tier) -> Vec<Seed> {
     let mut v = Vec::new();
     if let Ok(mut c) = SimdLz77Compressor::new() {
         for (label, p) in payloads() {
+            if t == Tier::Quick && !matches!(label, "empty" | "a") {
+                continue;
+            }
             // (the inherent method; the `Compressor` trait impl of this type is a length-prefixed stub)
             if let Ok(b) = SimdLz77Compressor::compress(&mut c, &p) {
                 v.push(seed(&format!("lz77({label})"), b, 0));
@@ -134,6 +146,11 @@ fn lz77_seeds(_t: Tier) -> Vec<Seed> {
         v.push(seed("lz77(all match types)", b, 0));
     }
     v
+}
+
+/// the X1/X2/X4/X8 wrappers and the global instance forward to SimdLz77Compressor::decompress
+fn lz77_wrapper_seeds(t: Tier) -> Vec<Seed> {
+    lz77_seeds(t).into_iter().filter(|s| t == Tier::Thorough || s.label == "lz77(a)").collect()
 }
 
 fn sample_matches() -> Vec<Match> {
@@ -203,6 +220,7 @@ fn build_pazip() -> Option<PaZipCompressor> {
 }
 
 fn pazip_parse(b: &[u8], _n: usize) -> bool {
+    limit_address_space();
     PAZIP.with(|c| match c.borrow_mut().as_mut() {
         Some(c) => {
             let mut out = Vec::new();
@@ -246,11 +264,11 @@ fn pazip_seeds(_t: Tier) -> Vec<Seed> {
 // ---------------------------------------------------------------------------------------------
 // dict_zip FSE wrappers
 
-fn pa_fse_seeds(_t: Tier) -> Vec<Seed> {
+fn pa_fse_seeds(t: Tier) -> Vec<Seed> {
     let cfg = PaFseConfig::for_pa_zip();
     let mut v = Vec::new();
     for (label, p) in payloads() {
-        if label == "ramp" {
+        if label == "ramp" || (t == Tier::Quick && !matches!(label, "a" | "text128")) {
             continue;
         }
         if let Ok(b) = apply_fse_compression(&p, &cfg) {
@@ -260,10 +278,10 @@ fn pa_fse_seeds(_t: Tier) -> Vec<Seed> {
     v
 }
 
-fn pa_fse_raw_seeds(_t: Tier) -> Vec<Seed> {
+fn pa_fse_raw_seeds(t: Tier) -> Vec<Seed> {
     let mut v = Vec::new();
     for (label, p) in payloads() {
-        if label == "ramp" {
+        if label == "ramp" || (t == Tier::Quick && !matches!(label, "a" | "text128")) {
             continue;
         }
         if let Ok(mut c) = FseCompressor::with_config(PaFseConfig::for_pa_zip()) {
@@ -340,14 +358,15 @@ fn sa_dict_file_seeds(_t: Tier) -> Vec<Seed> {
     bytes_via_file(|p| d.save_to_file(p).is_ok()).map(|b| vec![seed("sa_dict_file(fox)", canon_sa_dict(&b), 0)]).unwrap_or_default()
 }
 
-pub fn all(_tier: Tier) -> Vec<P> {
+pub fn all(tier: Tier) -> Vec<P> {
+    let th = tier == Tier::Thorough;
     vec![
-        P { name: "CompressorFactory[None]::decompress", seeds: factory_seeds::<0>, parse: factory_parse::<0>, len_arg: false, small: true },
+        P { name: "CompressorFactory[None]::decompress", seeds: factory_seeds::<0>, parse: factory_parse::<0>, len_arg: false, small: th },
         P { name: "CompressorFactory[Zstd(3)]::decompress", seeds: factory_seeds::<2>, parse: factory_parse::<2>, len_arg: false, small: true },
-        P { name: "CompressorFactory[Huffman]::decompress", seeds: factory_seeds::<3>, parse: factory_parse::<3>, len_arg: false, small: true },
-        P { name: "CompressorFactory[Rans]::decompress", seeds: factory_seeds::<4>, parse: factory_parse::<4>, len_arg: false, small: true },
-        P { name: "CompressorFactory[Dictionary]::decompress", seeds: factory_seeds::<5>, parse: factory_parse::<5>, len_arg: false, small: true },
-        P { name: "CompressorFactory[SimdLz77]::decompress", seeds: factory_seeds::<6>, parse: factory_parse::<6>, len_arg: false, small: true },
+        P { name: "CompressorFactory[Huffman]::decompress", seeds: factory_seeds::<3>, parse: factory_parse::<3>, len_arg: false, small: th },
+        P { name: "CompressorFactory[Rans]::decompress", seeds: factory_seeds::<4>, parse: factory_parse::<4>, len_arg: false, small: false },
+        P { name: "CompressorFactory[Dictionary]::decompress", seeds: factory_seeds::<5>, parse: factory_parse::<5>, len_arg: false, small: th },
+        P { name: "CompressorFactory[SimdLz77]::decompress", seeds: factory_seeds::<6>, parse: factory_parse::<6>, len_arg: false, small: th },
         P { name: "CompressorFactory[Hybrid]::decompress", seeds: factory_seeds::<7>, parse: factory_parse::<7>, len_arg: false, small: true },
         P { name: "AdaptiveCompressor[initial Lz4]::decompress", seeds: adaptive_seeds::<1>, parse: adaptive_parse::<1>, len_arg: false, small: false },
         P { name: "AdaptiveCompressor[Zstd(3)]::decompress", seeds: adaptive_seeds::<2>, parse: adaptive_parse::<2>, len_arg: false, small: false },
@@ -355,39 +374,63 @@ pub fn all(_tier: Tier) -> Vec<P> {
         P {
             name: "SimdLz77Compressor::decompress",
             seeds: lz77_seeds,
-            parse: |b, _| LZ77.with(|c| c.borrow_mut().as_mut().map(|c| SimdLz77Compressor::decompress(c, b).is_ok()).unwrap_or(false)),
+            parse: |b, _| {
+                limit_address_space();
+                LZ77.with(|c| c.borrow_mut().as_mut().map(|c| SimdLz77Compressor::decompress(c, b).is_ok()).unwrap_or(false))
+            },
             len_arg: false,
             small: true,
         },
         P {
             name: "SimdLz77CompressorX1::decompress",
-            seeds: lz77_seeds,
-            parse: |b, _| LZ77_X1.with(|c| c.borrow_mut().as_mut().map(|c| c.decompress(b).is_ok()).unwrap_or(false)),
+            seeds: lz77_wrapper_seeds,
+            parse: |b, _| {
+                limit_address_space();
+                LZ77_X1.with(|c| c.borrow_mut().as_mut().map(|c| c.decompress(b).is_ok()).unwrap_or(false))
+            },
             len_arg: false,
             small: false,
         },
         P {
             name: "SimdLz77CompressorX2::decompress",
-            seeds: lz77_seeds,
-            parse: |b, _| LZ77_X2.with(|c| c.borrow_mut().as_mut().map(|c| c.decompress(b).is_ok()).unwrap_or(false)),
+            seeds: lz77_wrapper_seeds,
+            parse: |b, _| {
+                limit_address_space();
+                LZ77_X2.with(|c| c.borrow_mut().as_mut().map(|c| c.decompress(b).is_ok()).unwrap_or(false))
+            },
             len_arg: false,
             small: false,
         },
         P {
             name: "SimdLz77CompressorX4::decompress",
-            seeds: lz77_seeds,
-            parse: |b, _| LZ77_X4.with(|c| c.borrow_mut().as_mut().map(|c| c.decompress(b).is_ok()).unwrap_or(false)),
+            seeds: lz77_wrapper_seeds,
+            parse: |b, _| {
+                limit_address_space();
+                LZ77_X4.with(|c| c.borrow_mut().as_mut().map(|c| c.decompress(b).is_ok()).unwrap_or(false))
+            },
             len_arg: false,
             small: false,
         },
         P {
             name: "SimdLz77CompressorX8::decompress",
-            seeds: lz77_seeds,
-            parse: |b, _| LZ77_X8.with(|c| c.borrow_mut().as_mut().map(|c| c.decompress(b).is_ok()).unwrap_or(false)),
+            seeds: lz77_wrapper_seeds,
+            parse: |b, _| {
+                limit_address_space();
+                LZ77_X8.with(|c| c.borrow_mut().as_mut().map(|c| c.decompress(b).is_ok()).unwrap_or(false))
+            },
             len_arg: false,
             small: false,
         },
-        P { name: "decompress_with_simd_lz77", seeds: lz77_seeds, parse: |b, _| decompress_with_simd_lz77(b).is_ok(), len_arg: false, small: false },
+        P {
+            name: "decompress_with_simd_lz77",
+            seeds: lz77_wrapper_seeds,
+            parse: |b, _| {
+                limit_address_space();
+                decompress_with_simd_lz77(b).is_ok()
+            },
+            len_arg: false,
+            small: false,
+        },
         P { name: "PaZipCompressor::decompress", seeds: pazip_seeds, parse: pazip_parse, len_arg: false, small: true },
         P { name: "dict_zip::decode_matches", seeds: match_stream_seeds, parse: |b, _| decode_matches(b).is_ok(), len_arg: false, small: true },
         P {
@@ -400,11 +443,21 @@ pub fn all(_tier: Tier) -> Vec<P> {
             len_arg: false,
             small: true,
         },
-        P { name: "dict_zip::remove_fse_compression", seeds: pa_fse_seeds, parse: |b, _| remove_fse_compression(b, &PaFseConfig::for_pa_zip()).is_ok(), len_arg: false, small: true },
+        P {
+            name: "dict_zip::remove_fse_compression",
+            seeds: pa_fse_seeds,
+            parse: |b, _| {
+                limit_address_space();
+                remove_fse_compression(b, &PaFseConfig::for_pa_zip()).is_ok()
+            },
+            len_arg: false,
+            small: th,
+        },
         P {
             name: "dict_zip::fse_unzip_reference(out=len)",
             seeds: pa_fse_seeds,
             parse: |b, n| {
+                limit_address_space();
                 let mut out = vec![0u8; n];
                 fse_unzip_reference(b, &mut out).is_ok()
             },
@@ -414,15 +467,18 @@ pub fn all(_tier: Tier) -> Vec<P> {
         P {
             name: "dict_zip::FseCompressor::decompress",
             seeds: pa_fse_raw_seeds,
-            parse: |b, _| match FseCompressor::with_config(PaFseConfig::for_pa_zip()) {
-                Ok(mut c) => c.decompress(b).is_ok(),
-                Err(_) => false,
+            parse: |b, _| {
+                limit_address_space();
+                match FseCompressor::with_config(PaFseConfig::for_pa_zip()) {
+                    Ok(mut c) => c.decompress(b).is_ok(),
+                    Err(_) => false,
+                }
             },
             len_arg: false,
-            small: true,
+            small: th,
         },
-        P { name: "dict_zip::DfaCache::deserialize", seeds: dfa_cache_seeds, parse: |b, _| DfaCache::deserialize(b).is_ok(), len_arg: false, small: true },
-        P { name: "SuffixArrayDictionary::deserialize", seeds: sa_dict_seeds, parse: |b, _| SuffixArrayDictionary::deserialize(b).is_ok(), len_arg: false, small: true },
+        P { name: "dict_zip::DfaCache::deserialize", seeds: dfa_cache_seeds, parse: |b, _| DfaCache::deserialize(b).is_ok(), len_arg: false, small: th },
+        P { name: "SuffixArrayDictionary::deserialize", seeds: sa_dict_seeds, parse: |b, _| SuffixArrayDictionary::deserialize(b).is_ok(), len_arg: false, small: th },
         P {
             name: "SuffixArrayDictionary::load_from_file",
             seeds: sa_dict_file_seeds,
